@@ -41,12 +41,16 @@ RULE = ("cells = (Gaussian: parameterisation x matrix form x dim) + (Lognormal f
         "standard-normal basis / the whole proposal alphabet / the whole grid; a cell is non-trivial when the "
         "object was constructed and at least one draw was compared with the object's own density")
 BOUND = {
-    "quick": "Gaussian 4 params x 9 forms x dim {1,2,3} (+dim 76, N in {1,2}, for all forms); Lognormal 4 forms x dim {1,2,3}; "
-             "GMRF 1-D n=2..6, 2-D 2x2,3x3, bc {zero,periodic,neumann} x order {0,1,2}; 7 generator families x "
-             "parameter forms x dim {1,2,3}; MHN 4 alpha x 2 beta x 5 gamma x 8-point alphabets; N in {1,2,3}; "
-             "both stream paths; 3 rng kinds",
-    "thorough": "as quick with dim 76 and 77 for N in {1,2,3}, GMRF 1-D n=2..9 and n=76, 2-D up to 4x4, "
-                "all three value catalogues per cell family, 12-point MHN alphabets",
+    "quick": "one value catalogue (seed % 3). Gaussian: 4 parameterisations x 9 matrix forms {scalar, vector, diag, lower, "
+             "upper, non-symmetric full, sparse(triangular/banded), sparse(full), sparse diag} x dim {1,2,3} x mean {vector, scalar} "
+             "x N {1,2,3} x {rng=, global numpy}, plus dim 76 (above the sparse switch) with N {1,2}; Lognormal 4 forms x dim "
+             "{1,2,3}; gallery BivariateGaussian; GMRF 1-D n=2..6 and 2-D 2x2, 3x3 x bc {zero, periodic, neumann} x order "
+             "{0,1,2}; 7 generator families x all scalar/vector parameter forms x dim {1,2,3} x N {1,2,3} x 2 paths on 4^dim..5^dim "
+             "grids; MHN internal sampler 5 alpha x 2 beta x 6 gamma and public path 5 x 2 x 6, 8-point proposal alphabets, "
+             "complete decision trees; 48 discipline objects x N {1,2,3} x 3 rng kinds; 19 conditional objects x all proper "
+             "subsets of their conditioning variables",
+    "thorough": "all three value catalogues; Gaussian dims 76 and 77 with N {1,2,3}; GMRF 1-D n=2..9 and n=76, 2-D up to 4x4; "
+                "12-point MHN alphabets; otherwise as quick",
 }
 ASSUMPTIONS = [
     "trusted base: the law of numpy/scipy primitive generators (normal, gamma, laplace, uniform, scipy beta/invgamma/"
